@@ -258,6 +258,8 @@ def finding_matches(finding, prop, ev):
     failing event must carry; only status 'known' suppresses."""
     if finding.get("status") != "known" or finding.get("property") != prop:
         return False
+    if not finding.get("match"):
+        return False        # findings recognised by the trace spec itself (TRACE-KF) never match here
     for path, want in finding.get("match", {}).items():
         cur = ev
         for part in path.split("."):
